@@ -32,6 +32,10 @@ def _mk_fault(rng, kind=None):
         f["i"], f["j"] = rng.randrange(3), rng.randrange(3)
     if kind == "params_key_missing":
         f["key"] = rng.choice(PARAM_KEYS)
+    if kind in CALLBACK_FAULTS and rng.random() < 0.5:
+        # what the collaborator raises: not only a private exception type
+        f["exc"] = rng.choice(["KeyError", "FloatingPointError", "StopIteration", "ValueError",
+                               "RuntimeError", "MemoryError", "InjectedBaseFault"])
     return f
 
 
@@ -410,6 +414,8 @@ class C07Monitor:
                 self.inc(f"fault_configured.{kind}")
             if kind and r["fired"]:
                 self.inc(f"fault_fired.{kind}")
+                if r["status"] == "raised" and r.get("exc") not in (None, "InjectedFault"):
+                    self.inc(f"fault_exc_type.{r['exc']}")
                 if r.get("fired_in_loop"):
                     self.inc(f"fault_fired_in_solver_loop.{kind}")
                 else:
